@@ -125,6 +125,16 @@ Theorem C16_data_events_keep_blocking : forall c s now e,
   st_blk (fst (step c s now e)) = st_blk s.
 Proof. exact data_events_keep_blocking. Qed.
 
+(* A set-power result that mentions the battery in neither set (it received no command) leaves
+   its blocking deadline, last blocking duration, failure streak and data flags untouched,
+   after every history. *)
+Theorem C16_not_mentioned_keeps_blocking : forall c ts0 tr now sp,
+  let s := final c (init c ts0) tr in
+  let s' := fst (step c s now (SetPower false false)) in
+  st_blk s' = st_blk s /\ spec_effect c s s' now (SetPower false false) sp = sp /\
+  st_bat s' = st_bat s /\ st_inv s' = st_inv s.
+Proof. exact not_mentioned_keeps_blocking. Qed.
+
 (* NOTIFICATIONS ONLY ON CHANGE: consecutive notifications differ, and the first one differs
    from the initial NOT_WORKING. *)
 Theorem C16_only_on_change : forall c ts0 tr,
@@ -183,6 +193,7 @@ Print Assumptions C16_backoff.
 Print Assumptions C16_failure_while_blocked_changes_nothing.
 Print Assumptions C16_success_resets.
 Print Assumptions C16_data_events_keep_blocking.
+Print Assumptions C16_not_mentioned_keeps_blocking.
 Print Assumptions C16_only_on_change.
 Print Assumptions C16_pool.
 Print Assumptions C16_pool_complete.
